@@ -140,6 +140,7 @@ func Assert(b bool, msg string) {
 	}
 }
 func Cover(label string)            {}
+func CoverIf(c bool, label string)  {}
 func SetNow(ns int64)               { nowNs = ns }
 func Now() int64                    { return nowNs }
 func Advance(d int64)               { nowNs += d }
